@@ -151,9 +151,51 @@ def gen_schema():
             "end Efp.Generated\n")
 
 
+def reference_specs():
+    """a fixed (seeded) family of systems on which the recorded dependencies are observed"""
+    import random
+    from harness import specgen, realsys
+    rng = random.Random(20260927)
+    specs = []
+    for i in range(14):
+        specs.append(specgen.gen_safe_spec(rng, realsys.unit_info, allow_delete=(i % 3 == 0), allow_dumps=(i % 4 == 0),
+                                           same_window=True))
+    return specs
+
+
+def gen_reads():
+    """class-level dependencies as the real code records them (direct_ancestors_with_id) on the
+    reference systems: ((class, calculated attr), (class, attr it was computed from))"""
+    from harness import realsys, graphx
+    reads = set()
+    for spec in reference_specs():
+        try:
+            rs = realsys.RealSystem(spec)
+        except Exception:  # noqa
+            continue
+        nodes = graphx.export(rs)
+        cls_of = {n: type(o).__name__ for n, o in rs.objs.items()}
+        for nd in nodes:
+            if not (nd["live"] and nd["calc"]):
+                continue
+            c = (cls_of[nd["slot"][0]], nd["slot"][1])
+            for a in nd["anc"]:
+                an = nodes[a]
+                if an["slot"] is None:
+                    continue
+                reads.add((c, (cls_of[an["slot"][0]], an["slot"][1])))
+    rows = [f"(({lean_str(c)}, {lean_str(a)}), ({lean_str(d)}, {lean_str(b)}))" for (c, a), (d, b) in sorted(reads)]
+    return ("/- GENERATED from /repo by harness/extract_schema.py — do not edit. -/\n"
+            "namespace Efp.Generated\n\n"
+            "/-- ((class, calculated attribute), (class, attribute)) : the first was computed from the second,\n"
+            "as recorded by the real code in `direct_ancestors_with_id` on the reference systems -/\n"
+            f"def recordedReads : List ((String × String) × (String × String)) := {lean_list(rows, 1)}\n\n"
+            "end Efp.Generated\n")
+
+
 def regenerate():
     changed = []
-    for fname, gen in [("Units.lean", gen_units), ("Schema.lean", gen_schema)]:
+    for fname, gen in [("Units.lean", gen_units), ("Schema.lean", gen_schema), ("Reads.lean", gen_reads)]:
         if write_if_changed(os.path.join(GEN, fname), gen()):
             changed.append(fname)
     return changed
